@@ -6,15 +6,18 @@
 import RpyModel.Drv.C01
 import RpyModel.Drv.C17
 import RpyModel.Drv.C20
+import RpyModel.Drv.C04
 open Lean
 
-def dispatch (R : Type) [Num R] (kind : String) (j : Json) : Except String Json :=
+def dispatch (R : Type) [Num R] [Inhabited R] (kind : String) (j : Json) : Except String Json :=
   match kind with
   | "reservoir_run" => Drv.handleReservoirRun R j
   | "nvar_run" => Drv.handleNvarRun R j
   | "delay_run" => Drv.handleDelayRun R j
   | "concat" => Drv.handleConcat R j
   | "forecast" => Drv.handleForecast j
+  | "ridge_fit" => Drv.handleRidgeFit R j
+  | "readout_forward" => Drv.handleReadoutForward R j
   | "one_hot" => Drv.handleOneHot j
   | "map_steps" => Drv.handleMapSteps R j
   | _ => throw s!"unknown kind {kind}"
